@@ -298,6 +298,61 @@ def switch_family_case(k, seed):
     return build_case_model(m, {"switch-family", "conditional", "requires"}, rnd, 0, 0, buffer_plan=plan)
 
 
+def param_family_case(k, seed):
+    """Always part of the run: a field whose type takes two or three run-time arguments, each argument read
+    from a field stored AFTER the parameterised field itself (one of them possibly conditional), viewed
+    over every prefix of the message - so every subset "this argument is not readable yet, the others are"
+    occurs, for every argument position."""
+    rnd = random.Random(seed * 1000081 + k)
+    m = M.Module("m.emb")
+    m.default_byte_order = "LittleEndian"
+    m.namespace = "v::ns"
+    nargs = 2 + (k % 2)
+    inner = M.Struct("struct", "Inner")
+    pn = ["pa", "pb", "pc"][:nargs]
+    for n_ in pn:
+        inner.params.append((n_, M.Type("UInt", 8, explicit=True)))
+    inner.fields.append(M.Field("x", ("n", 0), ("n", 1), M.Type("UInt", 8)))
+    which = pn[(k // 2) % nargs]
+    y = M.Field("y", ("n", 1), ("n", 1), M.Type("UInt", 8))
+    y.cond = ("op", "==", ("r", (which,)), ("n", 0))
+    inner.fields.append(y)
+    total_e = ("r", ("x",))
+    for n_ in pn:
+        total_e = ("op", "+", total_e, ("r", (n_,)))
+    inner.fields.append(M.Field("sum", value=total_e))
+    outer = M.Struct("struct", "Outer")
+    order = list(range(nargs))
+    rnd.shuffle(order)  # where each argument is stored, relative to the others
+    t = M.Type("struct", name="Inner")
+    t.target = inner
+    t.args = [("r", ("a%d" % i,)) for i in range(nargs)]
+    outer.fields.append(M.Field("inner", ("n", 0), ("n", 2), t))
+    cond_arg = rnd.choice([None] + list(range(nargs)))
+    for pos, i in enumerate(order):
+        f = M.Field("a%d" % i, ("n", 2 + pos), ("n", 1), M.Type("UInt", 8))
+        if cond_arg == i:
+            f.cond = ("op", "==", ("r", ("sel",)), ("n", 1))
+        outer.fields.append(f)
+    outer.fields.append(M.Field("sel", ("n", 2 + nargs), ("n", 1), M.Type("UInt", 8)))
+    m.types.append(inner)
+    m.types.append(outer)
+    semgen.set_parents(inner, None)
+    semgen.set_parents(outer, None)
+    total = 3 + nargs
+
+    def plan(s):
+        if s.name != "Outer":
+            return [(bytes([rnd.choice([0, 1, 9]), rnd.randrange(256)]), [0, 1, 2])]
+        out = []
+        for _ in range(6):
+            b = bytes(rnd.choice([0, 0, 1, 1, 2, 7, 255]) for _ in range(total))
+            out.append((b, list(range(total + 1))))
+        return out
+
+    return build_case_model(m, {"param-family", "parameters", "conditional", "nested-struct"}, rnd, 2, 3, buffer_plan=plan)
+
+
 def stride_family_module(k, seed):
     """Always part of the run: fields placed after a run-time count times a stride that is not a
     power of two (start known only modulo 12, 20, 10, 6, 24, 40, ...), of widths for which the
@@ -343,6 +398,8 @@ def build_case(case_seed, nbase, nprefix):
         return stride_family_case(case_seed[1], case_seed[2])
     if isinstance(case_seed, tuple) and case_seed[0] == "switch-family":
         return switch_family_case(case_seed[1], case_seed[2])
+    if isinstance(case_seed, tuple) and case_seed[0] == "param-family":
+        return param_family_case(case_seed[1], case_seed[2])
     rnd = random.Random(case_seed)
     if case_seed == "literal-array":
         rnd = random.Random(0)
@@ -566,7 +623,7 @@ def run(ctx):
     ]
     nmod = ctx.pick(48, 640)
     rnd = random.Random(ctx.seed * 7919 + 17)
-    seeds = [rnd.randrange(2**62) for _ in range(nmod)] + ["literal-array"] + [("switch-family", k, ctx.seed) for k in range(ctx.pick(4, 24))] + [("stride-family", k, ctx.seed) for k in range(ctx.pick(4, 24))]
+    seeds = [rnd.randrange(2**62) for _ in range(nmod)] + ["literal-array"] + [("switch-family", k, ctx.seed) for k in range(ctx.pick(4, 24))] + [("stride-family", k, ctx.seed) for k in range(ctx.pick(4, 24))] + [("param-family", k, ctx.seed) for k in range(ctx.pick(4, 24))]
     ctx.stats = run_batch(ctx, seeds, ctx.pick(4, 6), ctx.pick(14, 24), "b0")
     return ctx.finish(None)
 
